@@ -3,6 +3,7 @@ Relative Components Analysis (RCA)
 """
 
 import numpy as np
+import scipy.linalg
 import warnings
 from sklearn.base import TransformerMixin
 
@@ -112,8 +113,9 @@ class RCA(MahalanobisMixin, TransformerMixin):
     # Fisher Linear Discriminant projection
     if dim < X.shape[1]:
       total_cov = np.cov(X[chunk_mask], rowvar=0)
-      tmp = np.linalg.lstsq(total_cov, inner_cov, rcond=None)[0]
-      vals, vecs = np.linalg.eig(tmp)
+      # generalized symmetric eigenproblem inner_cov v = val * total_cov v
+      # (its eigenvalues and eigenvectors are real)
+      vals, vecs = scipy.linalg.eigh(inner_cov, total_cov)
       inds = np.argsort(vals)[:dim]
       A = vecs[:, inds]
       inner_cov = np.atleast_2d(A.T.dot(inner_cov).dot(A))
